@@ -1,3 +1,4 @@
+import numpy
 from . import cpp as this_module
 from .base import PrinterBase, modifier_base
 from .. import utils
@@ -128,7 +129,7 @@ constant_to_target = dict(
     largest="std::numeric_limits<{type}>::max()",
     posinf="std::numeric_limits<{type}>::infinity()",
     neginf="-std::numeric_limits<{type}>::infinity()",
-    pi="M_PI",
+    pi="{type}(M_PI)",
     nan="NAN",
 )
 
@@ -163,6 +164,10 @@ class Printer(PrinterBase):
         s = str(value)
         if s in {"True", "False"}:
             s = s.lower()
+        elif typ == "float" and isinstance(value, (float, int, numpy.floating, numpy.integer)) and numpy.isfinite(value):
+            # A literal without the f suffix has type double and
+            # promotes the float arithmetic it is used in to double.
+            s = f"{s}f" if ("." in s or "e" in s) else f"{s}.0f"
         elif s == "inf":
             s = f"std::numeric_limits<{typ}>::infinity()"
         elif s == "-inf":
